@@ -413,7 +413,13 @@ func (s *handler) handle(ctx context.Context, req request, w func(func(io.Writer
 				}
 			}
 
-			callParams[i+1+handler.hasCtx] = reflect.ValueOf(rp.Interface())
+			pv := reflect.ValueOf(rp.Interface())
+			if !pv.IsValid() {
+				// a nil value for an interface-typed parameter (JSON null): pass the
+				// typed nil, reflect cannot call with the zero Value
+				pv = reflect.Zero(typ)
+			}
+			callParams[i+1+handler.hasCtx] = pv
 		}
 	}
 
